@@ -362,6 +362,28 @@ def tables(chk):
             if not same(getattr(p, f), r[1 + 2 * k], r[2 + 2 * k], 'fm' if k < 4 else 'barn'):
                 bad.append((r[0], f))
     chk.decided(f'{MOD}:ScatteringParams.for_isotope/every-row-returned-verbatim[371 rows x 8 quantities]', not bad, detail=str(bad[:5]), meta={'evaluations': len(sp_rows) * 8})
+    # ... and still verbatim when an earlier answer for the same nuclide has been modified in place by its caller (values, variances,
+    # unit): the table, not a shared object, is what a lookup returns
+    bad = []
+    for r in sp_rows:
+        p = atoms.ScatteringParams.for_isotope(r[0])
+        for f in fields:
+            v = getattr(p, f)
+            if v is None:
+                continue
+            try:
+                v.values = v.values * 2 + 1
+                if v.variances is not None:
+                    v.variances = v.variances * 3 + 1
+                v.unit = 'm'
+            except Exception as e:  # noqa: BLE001 -- read-only answers are fine
+                pass
+        p2 = atoms.ScatteringParams.for_isotope(r[0])
+        for k, f in enumerate(fields):
+            if not same(getattr(p2, f), r[1 + 2 * k], r[2 + 2 * k], 'fm' if k < 4 else 'barn'):
+                bad.append((r[0], f))
+    chk.decided(f'{MOD}:ScatteringParams.for_isotope/every-row-verbatim-after-an-earlier-answer-was-modified-in-place[371 rows x 8 quantities]', not bad, detail=str(bad[:5]),
+                meta={'evaluations': len(sp_rows) * 8})
     bad = []
     wmap = {r[0]: r for r in w_rows[2:]}
     for r in w_rows[2:]:
